@@ -391,8 +391,9 @@ func NewInArrayExprNode(left, right Node) *InArrayExprNode {
 
 // InArrayExprNode is transitory node that handles conversion from untyped to typed IN nodes
 type InArrayExprNode struct {
-	left  Node
-	right Node
+	left   Node
+	right  Node
+	negate bool
 }
 
 func (node *InArrayExprNode) Accept(visitor Visitor) {
@@ -403,6 +404,9 @@ func (node *InArrayExprNode) Accept(visitor Visitor) {
 }
 
 func (node *InArrayExprNode) String() string {
+	if node.negate {
+		return fmt.Sprintf("%v not in %v", node.left, node.right)
+	}
 	return fmt.Sprintf("%v in %v", node.left, node.right)
 }
 
@@ -428,6 +432,12 @@ func (node *InArrayExprNode) TypeTransformBool(s SymbolTypes) (BoolNode, error) 
 	typedExpr, err := node.getTypedExpr()
 	if err != nil {
 		return nil, err
+	}
+
+	// "not in" / "not between" negate the comparison itself, so that inside anyOf/allOf the
+	// negation applies to every element: anyOf(x) not in [..] == anyOf(x not in [..])
+	if node.negate {
+		typedExpr = &NotExprNode{expr: typedExpr}
 	}
 
 	if isSetFunction {
@@ -479,9 +489,10 @@ func (node *InArrayExprNode) IsConst() bool {
 
 // BetweenExprNode is transitory node that handles conversion from untyped to typed BETWEEN nodes
 type BetweenExprNode struct {
-	left  Node
-	lower Node
-	upper Node
+	left   Node
+	lower  Node
+	upper  Node
+	negate bool
 }
 
 func (node *BetweenExprNode) Accept(visitor Visitor) {
@@ -493,6 +504,9 @@ func (node *BetweenExprNode) Accept(visitor Visitor) {
 }
 
 func (node *BetweenExprNode) String() string {
+	if node.negate {
+		return fmt.Sprintf("%v not between %v and %v", node.left, node.lower, node.upper)
+	}
 	return fmt.Sprintf("%v between %v and %v", node.left, node.lower, node.upper)
 }
 
@@ -518,6 +532,12 @@ func (node *BetweenExprNode) TypeTransformBool(s SymbolTypes) (BoolNode, error) 
 	typedExpr, err := node.getTypedExpr()
 	if err != nil {
 		return nil, err
+	}
+
+	// "not in" / "not between" negate the comparison itself, so that inside anyOf/allOf the
+	// negation applies to every element: anyOf(x) not in [..] == anyOf(x not in [..])
+	if node.negate {
+		typedExpr = &NotExprNode{expr: typedExpr}
 	}
 
 	if isSetFunction {
